@@ -52,9 +52,10 @@ Boundaries == {DecCodes(Sub(TwoTo63, <<1>>)), DecCodes(TwoTo63), DecCodes(Add(Tw
                <<48, 111, 55>> \o Rep(55, 20), <<48, 111, 49>> \o Rep(48, 21), <<48, 79, 50>> \o Rep(48, 21),
                <<48, 98, 49>> \o Rep(48, 63), <<48, 98>> \o Rep(49, 63), <<48, 66, 49>> \o Rep(48, 64)}
 
+Salts == IF Big THEN 0..5 ELSE {0}                 \* several digit streams per shape in the thorough tier
 UInts == Boundaries \cup
-         UNION {{p \o Place(Digits(n, base, cs, n + pat), pat) : p \in Prefixes(base), n \in Lens(base), cs \in Cases(base), pat \in Pats}
-                : base \in {10, 16, 8, 2}}
+         UNION {UNION {{p \o Place(Digits(n, base, cs, n + pat + 40 * t), pat) : p \in Prefixes(base), n \in Lens(base), cs \in Cases(base), pat \in Pats}
+                       : base \in {10, 16, 8, 2}} : t \in Salts}
 
 \* a smaller family for the parts of rationals
 RatParts == {<<49>>, <<51>>, Digits(2, 10, 0, 5), Place(Digits(7, 10, 0, 6), 1), Digits(21, 10, 0, 7),
@@ -63,8 +64,8 @@ RatParts == {<<49>>, <<51>>, Digits(2, 10, 0, 5), Place(Digits(7, 10, 0, 6), 1),
 Rats == {a \o <<SLASH>> \o b : a \in RatParts \cup {<<48>>}, b \in RatParts}
 
 \* floats: integer part, optional fraction, optional exponent; at least one of the latter two
-IParts == {<<48>>, <<55>>, Digits(3, 10, 0, 12), Place(Digits(7, 10, 0, 13), 1), Digits(17, 10, 0, 14), Digits(25, 10, 0, 15)}
-FParts == {<<>>, <<48>>, <<53>>, Digits(6, 10, 0, 16), Place(Digits(6, 10, 0, 17), 3), Digits(20, 10, 0, 18), Rep(48, 3) \o <<49>>}
+IParts == {<<48>>, <<55>>} \cup UNION {{Digits(3, 10, 0, 12 + 40 * t), Place(Digits(7, 10, 0, 13 + 40 * t), 1), Digits(17, 10, 0, 14 + 40 * t), Digits(25, 10, 0, 15 + 40 * t)} : t \in Salts}
+FParts == {<<>>, <<48>>, <<53>>, Rep(48, 3) \o <<49>>} \cup UNION {{Digits(6, 10, 0, 16 + 40 * t), Place(Digits(6, 10, 0, 17 + 40 * t), 3), Digits(20, 10, 0, 18 + 40 * t)} : t \in (IF Big THEN 0..2 ELSE {0})}
 Exps   == {<<>>, <<101, 53>>, <<69, 43, 49, 48>>, <<101, 45, 55>>, <<69, 48, 53>>, <<101, 51, 48, 56>>, <<101, 45, 51, 50, 52>>,
            <<69, 45, 51, 51, 48>>, <<101, 50, 57, 50>>, <<101, 43, 49, US, 48>>, <<101, 51, 49, 48>>, <<101, 45, 52, 48, 49>>}
 Floats == {ip \o (IF fp = <<>> THEN <<>> ELSE <<DOT>> \o fp) \o ex : ip \in IParts, fp \in FParts, ex \in Exps} \ IParts
